@@ -69,11 +69,14 @@ def build_harness(kind='asan', std='c++20', extra_flags=(), srcdir=None, harness
     inc = os.path.join(srcdir or REPO, 'include')
     src = os.path.join(srcdir or REPO, 'src')
     hsrc = os.path.join(VERIF, 'harness', harness)
-    files = [os.path.join(inc, 'upa', f) for f in sorted(os.listdir(os.path.join(inc, 'upa')))] + [os.path.join(src, f) for f in LIB_SRCS] + [hsrc]
+    # key: every header and every source file of the tree + every file of harness/ (harness files include one another)
+    hdir = os.path.join(VERIF, 'harness')
+    files = ([os.path.join(inc, 'upa', f) for f in sorted(os.listdir(os.path.join(inc, 'upa')))] + [os.path.join(src, f) for f in sorted(os.listdir(src)) if os.path.isfile(os.path.join(src, f))] +
+             [os.path.join(hdir, f) for f in sorted(os.listdir(hdir)) if os.path.isfile(os.path.join(hdir, f))])
     flags = ['-std=' + std, '-DUPA_VERIF_HOOKS', '-I' + inc, '-g1'] + list(extra_flags)
     if kind == 'asan': flags += ['-fsanitize=address,undefined', '-fno-sanitize-recover=all', '-fno-omit-frame-pointer']
     elif kind == 'tsan': flags += ['-fsanitize=thread']
-    key = sha_files(files, ' '.join(flags) + opt + kind)
+    key = sha_files(files, ' '.join(flags) + opt + kind + '|' + harness)
     out = os.path.join(CACHE, 'h_' + key)
     exe = os.path.join(out, 'harness')
     with Lock('h_' + key):
